@@ -870,7 +870,8 @@ def run_after_logical(ctx):
 
 def plan(tier):
     shards = [{'kind': 'region1900'}, {'kind': 'fractions'},
-              {'kind': 'outside'}, {'kind': 'after-logical'}]
+              {'kind': 'outside'}, {'kind': 'after-logical'},
+              {'kind': 'month-top'}]
     if tier == 'thorough':
         step = 4000
         for lo in range(61, MAXS + 1, step):
@@ -962,6 +963,20 @@ def run_shard(shard, ctx):
             for k in range(k0, k1 + 1):
                 month_case('EDATE', s, k, ctx)
                 month_case('EOMONTH', s, k, ctx)
+    elif kind == 'month-top':
+        # targets in the last months of year 9999 (the last one included),
+        # reached from near and from far
+        tops = [SER(D(9999, m, d)) for m, d in (
+            (1, 31), (10, 31), (11, 1), (11, 30), (12, 1), (12, 30),
+            (12, 31))] + [SER(D(9998, 12, 31)), SER(D(9998, 2, 28))]
+        for s in tops:
+            for k in range(-14, 15):
+                month_case('EDATE', s, k, ctx)
+                month_case('EOMONTH', s, k, ctx)
+        for s, k in ((1, 97199), (1, 97198), (61, 97197), (36526, 95999),
+                     (36526, 96000)):
+            month_case('EDATE', s, k, ctx)
+            month_case('EOMONTH', s, k, ctx)
     elif kind == 'month-dt':
         _, (k0, k1) = month_starts(tier)
         for s in range(shard['lo'], shard['hi']):
